@@ -3,8 +3,7 @@ import ScVerif.C16.Tree
 # C16 — model of `pkg/cmp/cmp.go` (`equator`) and `pkg/cmp/logic.go`
 
 Follows the Go code phase by phase: `compare` (nil / IsValid), `equalMessage` (descriptor identity,
-`Range` over x with `Has` on y, field counting, unknown fields), `equalField` (the
-`Change.change_time` exception, list, map, singular), `equalList`, `equalMap`, `equalValue`
+`Range` over x with `Has` on y, field counting, unknown fields), `ignoredField` (the `Change.change_time` exception), `equalField` (list, map, singular), `equalList`, `equalMap`, `equalValue`
 (value-comparer override with its `ok` flag, then the per-kind comparison), `equalUnknown`.
 -/
 namespace ScVerif.C16
@@ -63,12 +62,20 @@ def scalarEq : Scalar → Scalar → Bool
   | .bytes a, .bytes b => a == b
   | _, _ => false
 
-/-- The case added to proto.Equal: `fd.Name() == "change_time" && fd.ContainingMessage().Name() == "Change"`. -/
-def isChangeTime (parentShort : String) (fd : FD) : Bool :=
+/-- `ignoredField`: the case added to proto.Equal —
+`fd.Name() == "change_time" && fd.ContainingMessage().Name() == "Change"`.  Such a field takes no part
+in the comparison: neither its value nor whether it is set. -/
+def ignoredField (parentShort : String) (fd : FD) : Bool :=
   fd.name == "change_time" && parentShort == "Change"
 
-def unkLen (u : Unk) : Nat := (u.map (fun r => r.2.length)).sum
+/-- What each of the two `Range` loops of `equalMessage` counts: populated fields that are not ignored. -/
+def countFields (parent : String) : Fields → Nat
+  | .nil => 0
+  | .cons fd _ rest => if ignoredField parent fd then countFields parent rest else countFields parent rest + 1
+
 def unkBytes (u : Unk) : String := String.join (u.map (·.2))
+/-- `len(x)`: the length of the raw bytes. -/
+def unkLen (u : Unk) : Nat := (unkBytes u).length
 /-- All raw bytes recorded for field number `n`, in order. -/
 def unkGroup (n : Nat) (u : Unk) : String := String.join ((u.filter (fun r => r.1 == n)).map (·.2))
 
@@ -87,24 +94,25 @@ mutual
       else match x, y with
         | .sc a, .sc b => scalarEq a b
         | .msg tx _ fx ux, .msg ty _ fy uy =>
-          tx == ty && eqFieldsLoop c (shortName tx) fx fy && (fx.count == fy.count) && eqUnknown ux uy
+          tx == ty && eqFieldsLoop c (shortName tx) fx fy &&
+            (countFields (shortName tx) fx == countFields (shortName ty) fy) && eqUnknown ux uy
         | _, _ => false
   /-- `equalField`. -/
-  def eqField (c : VCmp) (parent : String) (fd : FD) : FVal → FVal → Bool
-    | x, y =>
-      if isChangeTime parent fd then true
-      else match x, y with
-        | .list xs, .list ys => (xs.len == ys.len) && eqListLoop c xs ys
-        | .map xs, .map ys => (xs.len == ys.len) && eqMapLoop c xs ys
-        | .one a, .one b => eqValue c a b
-        | _, _ => false
-  /-- The first `Range` loop of `equalMessage`: every populated field of x is populated in y and equal. -/
+  def eqField (c : VCmp) : FVal → FVal → Bool
+    | .list xs, .list ys => (xs.len == ys.len) && eqListLoop c xs ys
+    | .map xs, .map ys => (xs.len == ys.len) && eqMapLoop c xs ys
+    | .one a, .one b => eqValue c a b
+    | _, _ => false
+  /-- The first `Range` loop of `equalMessage`: every populated, not ignored field of x is populated in y
+  and equal. -/
   def eqFieldsLoop (c : VCmp) (parent : String) : Fields → Fields → Bool
     | .nil, _ => true
     | .cons fd fv rest, fy =>
-      (match fy.get? fd with
-        | some fvy => eqField c parent fd fv fvy
-        | none => false) && eqFieldsLoop c parent rest fy
+      if ignoredField parent fd then eqFieldsLoop c parent rest fy
+      else
+        (match fy.get? fd with
+          | some fvy => eqField c fv fvy
+          | none => false) && eqFieldsLoop c parent rest fy
   /-- `equalList`'s loop (lengths already equal). -/
   def eqListLoop (c : VCmp) : Vals → Vals → Bool
     | .nil, .nil => true
@@ -122,7 +130,8 @@ end
 /-- `equalMessage`. -/
 def eqMessage (c : VCmp) : Val → Val → Bool
   | .msg tx _ fx ux, .msg ty _ fy uy =>
-    tx == ty && eqFieldsLoop c (shortName tx) fx fy && (fx.count == fy.count) && eqUnknown ux uy
+    tx == ty && eqFieldsLoop c (shortName tx) fx fy &&
+            (countFields (shortName tx) fx == countFields (shortName ty) fy) && eqUnknown ux uy
   | _, _ => false
 
 /-- `equator.compare`. -/
